@@ -583,6 +583,17 @@ func (f *frame) overflow(v ssa.Value, term string, st *State) {
 	}
 }
 
+// isBytesToString: the value is a conversion string([]byte)
+func isBytesToString(v ssa.Value) bool {
+	cv, ok := v.(*ssa.Convert)
+	if !ok {
+		return false
+	}
+	_, fromSlice := cv.X.Type().Underlying().(*types.Slice)
+	b, toStr := cv.Type().Underlying().(*types.Basic)
+	return fromSlice && toStr && b.Info()&types.IsString != 0
+}
+
 func (f *frame) binop(x *ssa.BinOp, st *State) bool {
 	g := f.g
 	a := f.val(x.X)
@@ -630,6 +641,12 @@ func (f *frame) binop(x *ssa.BinOp, st *State) bool {
 			t = and(cs...)
 		} else {
 			t = fmt.Sprintf("(= %s %s)", a.T, b.T)
+			if s == "Str" && (isBytesToString(x.X) || isBytesToString(x.Y)) {
+				// strings are determined by their octets (extensionality, instantiated for this comparison)
+				d := g.fresh("strdiff")
+				g.declare(d, "Int")
+				g.assumeUnder(st.reach, fmt.Sprintf("(or (= %[1]s %[2]s) (not (= (slen %[1]s) (slen %[2]s))) (and (<= 0 %[3]s) (< %[3]s (slen %[1]s)) (not (= (sat %[1]s %[3]s) (sat %[2]s %[3]s)))))", a.T, b.T, d))
+			}
 		}
 		if x.Op == token.NEQ {
 			t = not(t)
